@@ -5,12 +5,19 @@ from .common import *  # noqa: F401,F403
 from .common import Contract, Registry, LoopSpec, BASE_ENV, INIT, COMMON_PY, bounded_sweep
 
 REGISTRY = Registry()
-LEVEL = "exploration"      # the algorithm itself (_WrapNumbers.run) is not under a deductive contract: the evidence says so
+LEVEL = "proof"            # _WrapNumbers.run is under a deductive one-step contract (STEP below); its shape bound is reported
 TRUSTED = ["threading.Lock gives mutual exclusion"]
-ASSUMPTIONS = ["all tuples of one key have one arity; counters are non-negative ints"]
-NOT_COVERED = ["_WrapNumbers.run's nested dict/defaultdict/set state is outside the VC generator's container model: it is "
-               "covered by a bounded enumeration of snapshot histories (two names, three devices, wraps, devices "
-               "appearing/disappearing/reappearing, cache_clear at any point) against a reference model",
+ASSUMPTIONS = ["all tuples of one key have one arity; counters are non-negative ints",
+               "SHAPE BOUND of the _WrapNumbers.run step contract: the symbolic execution enumerates which devices are "
+               "cached / in the snapshot and which offsets are stored (replay/c10shape.py: up to 4 devices, tuple width up "
+               "to 3, every reachable reminder layout for <= 2 devices); counter values, offsets and the length of the "
+               "history are unbounded (inductive invariant).  More devices / wider tuples are covered only by the argument "
+               "that run() treats each (device, position) independently - not machine-checked - and by the bounded "
+               "history sweep"]
+NOT_COVERED = ["_WrapNumbers.run for more devices or wider tuples than the shape table holds (see assumptions): the bounded "
+               "enumeration of snapshot histories against a reference model (two names, three devices, wraps, devices "
+               "appearing/disappearing/reappearing, cache_clear at any point) stays as a second, representation-independent check",
+               "_WrapNumbers.cache_clear: three dict.pop/clear calls, checked by the history sweep and the lock table only",
                "the scheduler (two threads): only lock ownership of every access is checked (table obligation)"]
 ENV = dict(BASE_ENV)
 
@@ -131,6 +138,251 @@ def table_lock_ownership():
 
 
 TABLES = [table_names, table_lock_ownership]
+
+# --- the algorithm: one call of _WrapNumbers.run from ANY well-formed state ---------------------------------------------
+# The real method is executed symbolically on a state whose SHAPE is concrete (which keys are cached / in the new snapshot,
+# which (key, i) offsets are stored and indexed: replay/c10shape.py) and whose VALUES are unconstrained non-negative
+# integers.  The entry state is any state satisfying the representation invariant, not one reached by a particular history:
+# the postcondition re-establishes the invariant, so the clauses hold after every call of every history (induction on the
+# history length, unbounded), for all counter values (unbounded); the number of keys and the tuple width are bounded by
+# the shape table and that bound is reported.
+import os as _os
+from replay import c10shape as _sh
+from vc.interp import Unsupported as _Unsupported
+
+
+def _t(v):
+    return v if is_t(v) else I(int(v))
+
+
+def _eq(a, b):
+    if not is_t(a) and not is_t(b):
+        return B(a == b)
+    return Eq(_t(a), _t(b))
+
+
+def setup_step(it, cfg):
+    shape = cfg["shape"]
+    vals = []
+
+    def val(n):
+        v = it.fresh(n, "Int")
+        it.assume(smt.Cmp(">=", v, I(1 if n.startswith("m_") else 0)))     # an indexed offset is a sum of values that were
+        vals.append(v)                                                       # above a non-negative successor: >= 1
+        return v
+    st = _sh.build(shape, val)
+    mod = ModuleSrc.get(COMMON_PY)
+    from .frontproc import Lock
+    o = Obj("_WrapNumbers", {"lock": Lock(), "cache": st["cache"], "reminders": st["reminders"],
+                             "reminder_keys": st["reminder_keys"]}, module=mod)
+    # entry copies for the frame clauses (the interpreter mutates the containers in place)
+    entry_other = {a: (dict(st[a][_sh.OTHER]) if a != "reminder_keys" else {k: set(v) for k, v in st[a][_sh.OTHER].items()})
+                   for a in ("cache", "reminders", "reminder_keys")}
+    return {"args": {"self": o, "input_dict": st["input"], "name": _sh.NAME},
+            "spec": {"st": st, "entry_other": entry_other, "entry_input": dict(st["input"])}, "values": vals}
+
+
+def _state(env):
+    """the three maps of the post-state for NAME, or Unsupported when the representation is no longer the one the anchors
+    describe (then the step contract cannot speak about it: undecided, never a violation)"""
+    o = env["self"]
+    try:
+        c, r, k = o.attrs["cache"], o.attrs["reminders"], o.attrs["reminder_keys"]
+        if not (isinstance(c, dict) and isinstance(r, dict) and isinstance(k, dict)):
+            raise KeyError
+    except KeyError:
+        raise _Unsupported("_WrapNumbers no longer keeps cache/reminders/reminder_keys dicts")
+    return c, r, k
+
+
+def _off_post(env, key, i):
+    c, r, k = _state(env)
+    if _sh.NAME not in r:
+        return 0
+    d = r[_sh.NAME]
+    return d[(key, i)] if (key, i) in d else 0
+
+
+def p_keys(it, env):
+    """the result has exactly the devices of the new snapshot"""
+    res = env["result"]
+    return B(isinstance(res, dict) and set(res) == set(env["entry_input"]))
+
+
+def p_values(it, env):
+    """out = raw + offset, the offset having grown by the previous raw value iff the counter went backwards; a device that
+    was not in the previous snapshot (new, or back after disappearing) and the first call return the raw values"""
+    st, res = env["st"], env["result"]
+    cl = []
+    for key, status, digits in st["keys"]:
+        if status not in "bn":
+            continue
+        if key not in res or len(res[key]) != len(digits):
+            return B(False)
+        for i in range(len(digits)):
+            raw = st["raw"][key][i]
+            if status == "n" or st["first"]:
+                cl.append(_eq(res[key][i], raw))
+            else:
+                old, off = st["old"][key][i], st["off"][(key, i)]
+                cl.append(_eq(res[key][i], smt.Add(_t(raw), smt.Add(_t(off), Ite(smt.Cmp("<", raw, old), _t(old), I(0))))))
+    return And(*cl) if cl else B(True)
+
+
+def p_monotone(it, env):
+    """never below what the previous call returned for this device (previous output = previous raw + offset at entry)"""
+    st, res = env["st"], env["result"]
+    cl = []
+    for key, status, digits in st["keys"]:
+        if status == "b" and not st["first"]:
+            for i in range(len(digits)):
+                cl.append(smt.Cmp(">=", _t(res[key][i]), smt.Add(_t(st["old"][key][i]), _t(st["off"][(key, i)]))))
+    return And(*cl) if cl else B(True)
+
+
+def p_offsets(it, env):
+    """the stored offset of a device that stayed is the one the result used; every other device (gone, new, absent, first
+    call) has offset 0 afterwards: it starts afresh"""
+    st = env["st"]
+    cl = []
+    for key, status, digits in st["keys"]:
+        for i in range(len(digits)):
+            got = _off_post(env, key, i)
+            if status == "b" and not st["first"]:
+                raw, old, off = st["raw"][key][i], st["old"][key][i], st["off"][(key, i)]
+                cl.append(_eq(got, smt.Add(_t(off), Ite(smt.Cmp("<", raw, old), _t(old), I(0)))))
+            else:
+                cl.append(_eq(got, 0))
+    return And(*cl) if cl else B(True)
+
+
+def p_cache(it, env):
+    """the snapshot the next call compares against is this call's raw input"""
+    c, r, k = _state(env)
+    got = c.get(_sh.NAME)
+    want = env["entry_input"]
+    if not isinstance(got, dict) or set(got) != set(want):
+        return B(False)
+    cl = [_eq(a, b) for key in want for a, b in zip(got[key], want[key])]
+    if any(len(got[key]) != len(want[key]) for key in want):
+        return B(False)
+    return And(*cl) if cl else B(True)
+
+
+def p_invariant(it, env):
+    """representation invariant re-established (the one the entry states are drawn from): every stored offset is either
+    indexed under its device and >= 1, or 0; indexed devices are cached, their index entries exist and belong to them (what
+    _remove_dead_reminders relies on), and a device with an indexed offset has an entry for every position"""
+    c, r, k = _state(env)
+    if not (_sh.NAME in c and _sh.NAME in r and _sh.NAME in k):
+        return B(False)
+    cn, rn, kn = c[_sh.NAME], r[_sh.NAME], k[_sh.NAME]
+    cl = []
+    for rk_, v in rn.items():
+        if not (isinstance(rk_, tuple) and len(rk_) == 2):
+            raise _Unsupported("reminders are no longer keyed by (key, i)")
+        if rk_[0] in kn and rk_ in kn[rk_[0]]:
+            cl.append(smt.Cmp(">=", _t(v), I(1)))
+        else:
+            cl.append(_eq(v, 0))
+    for key, idx in kn.items():
+        if key not in cn or not idx:
+            return B(False)       # (the shape table has no empty index sets: none may be left behind either)
+        for rk_ in idx:
+            if rk_ not in rn or rk_[0] != key:
+                return B(False)
+        if idx and not all((key, i) in rn for i in range(len(cn[key]))):
+            return B(False)       # an indexed offset only once every position of the device has its entry
+    return And(*cl) if cl else B(True)
+
+
+def p_frame(it, env):
+    """the other function's history and the caller's input dict are untouched"""
+    c, r, k = _state(env)
+    eo = env["entry_other"]
+    cl = []
+    for a, m in (("cache", c), ("reminders", r), ("reminder_keys", k)):
+        if _sh.OTHER not in m:
+            return B(False)
+        got, want = m[_sh.OTHER], eo[a]
+        if set(got) != set(want):
+            return B(False)
+        for key in want:
+            if a == "reminder_keys":
+                if set(got[key]) != want[key]:
+                    return B(False)
+            elif a == "cache":
+                cl += [_eq(x, y) for x, y in zip(got[key], want[key])]
+            else:
+                cl.append(_eq(got[key], want[key]))
+    inp, want = env["input_dict"], env["entry_input"]
+    if set(inp) != set(want):
+        return B(False)
+    for key in want:
+        cl += [_eq(x, y) for x, y in zip(inp[key], want[key])]
+    return And(*cl)
+
+
+STEP = Contract(
+    "C10", COMMON_PY, "_WrapNumbers.run", name="_common._WrapNumbers.run (one step, any well-formed state)",
+    setup=setup_step, env=ENV,
+    configs=[{"shape": s_} for s_ in _sh.shapes(_os.environ.get("VERIF_TIER", "quick"))],
+    ensures=[p_keys, p_values, p_monotone, p_offsets, p_cache, p_invariant, p_frame],
+    raises={}, canaries=[], replay="c10:step", max_paths=5000,
+    note="inductive step: from every state satisfying the representation invariant (shape table: <= 3 devices x <= 3 "
+         "fields, all reminder layouts), for all counter values, one call returns raw + offset, grows the offset by the "
+         "previous raw value exactly at a decrease, forgets devices that are not in the snapshot, stores the snapshot, "
+         "keeps the invariant and leaves the other name alone")
+REGISTRY.add(STEP)
+
+# --- cache_clear: forgets all history of the name (or of every name), nothing else ------------------------------------------
+
+def setup_clear(it, cfg):
+    su = setup_step(it, {"shape": cfg["shape"]})
+    which = {"none": None, "own": _sh.NAME, "other": _sh.OTHER, "unknown": "psutil.never_called"}[cfg["which"]]
+    return {"args": {"self": su["args"]["self"], "name": which},
+            "spec": dict(su["spec"], which=which, had_name=not su["spec"]["st"]["first"]), "values": su["values"]}
+
+
+def p_clear(it, env):
+    """cache_clear() leaves no state at all; cache_clear(name) removes that name from all three maps and keeps the other
+    names' entries as they were; an unknown name is not an error"""
+    c, r, k = _state(env)
+    which, st, eo = env["which"], env["st"], env["entry_other"]
+    if which is None:
+        return B(len(c) == 0 and len(r) == 0 and len(k) == 0)
+    cl = []
+    for a, m in (("cache", c), ("reminders", r), ("reminder_keys", k)):
+        if which in m:
+            return B(False)
+        for nm in (_sh.NAME, _sh.OTHER):
+            if nm == which or (nm == _sh.NAME and not env["had_name"]):
+                continue
+            if nm not in m:
+                return B(False)
+        if which != _sh.OTHER:
+            got, want = m[_sh.OTHER], eo[a]
+            if set(got) != set(want):
+                return B(False)
+            for key in want:
+                if a == "reminder_keys":
+                    if set(got[key]) != want[key]:
+                        return B(False)
+                elif a == "cache":
+                    cl += [_eq(x, y) for x, y in zip(got[key], want[key])]
+                else:
+                    cl.append(_eq(got[key], want[key]))
+        if which != _sh.NAME and env["had_name"] and m[_sh.NAME] is not st[a][_sh.NAME]:
+            return B(False)       # the very same (untouched) per-name container
+    return And(*cl) if cl else B(True)
+
+
+CLEAR = Contract(
+    "C10", COMMON_PY, "_WrapNumbers.cache_clear", setup=setup_clear, env=ENV,
+    configs=[{"shape": s_, "which": w_} for s_ in ("b22-g21-n00", "first-2-1", "b1") for w_ in ("none", "own", "other", "unknown")],
+    ensures=[p_clear, "result is None", "log == [('lock', 'acquire'), ('lock', 'release')]"], raises={}, canaries=[], replay="c10:clear",
+    note="cache_clear() forgets every name, cache_clear(name) exactly that name (all three maps), unknown names are ignored")
+REGISTRY.add(CLEAR)
 
 WN = Contract("C10", COMMON_PY, "_WrapNumbers.run", env=ENV,
               ensures=["per name and key: out = raw + offset, offset grows by the previous raw value at each decrease; a key "
